@@ -1330,7 +1330,48 @@ func ruleC12DecidedByEqual(c *Ctx) {
 		nFail++
 		byEq := false
 		var selfCompared []string
+		guards := guardsOf(ret)
+		// the search of the bucket may be a helper that answers "found" only under the equality function's yes
 		for _, g := range guardsOf(ret) {
+			ex, ok := g.Cond.(*ssa.Extract)
+			if !ok || !g.Pol || !isBoolType(ex.Type()) {
+				continue
+			}
+			hc, ok := ex.Tuple.(*ssa.Call)
+			if !ok {
+				continue
+			}
+			h := hc.Call.StaticCallee()
+			if h == nil || !c.P.InPkg(h) || h == eq {
+				continue
+			}
+			all, any := true, false
+			var inner []guardAtom
+			core.EachInstr(h, func(j ssa.Instruction) {
+				hr, ok := j.(*ssa.Return)
+				if !ok || ex.Index >= len(hr.Results) {
+					return
+				}
+				if k, isConst := hr.Results[ex.Index].(*ssa.Const); isConst && k.Value != nil && k.Value.String() == "false" {
+					return
+				}
+				byEq := false
+				for _, hg := range guardsLocal(hr) {
+					if gc, ok := hg.Cond.(*ssa.Call); ok && hg.Pol && gc.Call.StaticCallee() == eq {
+						byEq = true
+						inner = append(inner, hg)
+					}
+				}
+				any = true
+				if !byEq {
+					all = false
+				}
+			})
+			if all && any {
+				guards = append(guards, inner...)
+			}
+		}
+		for _, g := range guards {
 			if gc, ok := g.Cond.(*ssa.Call); ok && g.Pol && gc.Call.StaticCallee() == eq {
 				a, b := gc.Call.Args[0], gc.Call.Args[1]
 				ia, ok1 := a.(*ssa.Call)
@@ -1441,7 +1482,7 @@ func containerSide(v ssa.Value, sx, sy map[ssa.Value]bool, depth int) int {
 // indexPositions: the index arguments of the reflect.Value.Index calls v comes from.
 func indexPositions(v ssa.Value) []ssa.Value {
 	var out []ssa.Value
-	for _, s := range append(traceSources(v), v) {
+	for _, s := range append(traceSourcesDeep(v), v) {
 		if call, ok := s.(*ssa.Call); ok && core.CalleeKey(&call.Call) == "reflect.Value.Index" && len(call.Call.Args) == 2 {
 			out = append(out, call.Call.Args[1])
 		}
@@ -1450,7 +1491,7 @@ func indexPositions(v ssa.Value) []ssa.Value {
 }
 
 func isIndexDerived(v ssa.Value) bool {
-	for _, s := range traceSources(v) {
+	for _, s := range traceSourcesDeep(v) {
 		if call, ok := s.(*ssa.Call); ok && core.CalleeKey(&call.Call) == "reflect.Value.Index" {
 			return true
 		}
